@@ -782,6 +782,10 @@ impl Engine for Conc {
             _ => {}
         }
         let shared_container = rng.chance(1, 3);
+        if shared_container && rng.coin() {
+            // handles fetched from the shared container for the call (`get`, indexing)
+            cfg.provs = vec![Prov::Own, Prov::Clone, Prov::Get, Prov::Index];
+        }
         let mut tasks = Vec::new();
         // a readers-versus-writers template (directed): one task keeps reading one side of a node
         // while others change the OTHER side of the same node, so the node's lock is busy although
